@@ -54,7 +54,12 @@ def r1(ctx):
         ctx.check(P, rule, "PartialKeypair: decode = len, 32 bytes, len, 64 bytes (secret||public)", shapes == [("lenprefix",), ("fixed", 32), ("lenprefix",), ("fixed", 64), ("fixed", 32)] and full == SK + PK,
                   "len-prefixed public key (32) and full signing key (64 = secret 32 + public 32)", "PartialKeypair::decode shapes %s, FULL_SIGNING_KEY_LENGTH=%s" % (shapes, full))
         enc = seq(ctx, d["encode"])
-        ctx.check(P, rule, "PartialKeypair: encode = bytes(public), then bytes(secret||public) or a single 0", [e.cls for e in enc] == [B, B, ("fixed", 1)], "two length-prefixed byte strings or a zero byte",
+        fe_ = d["encode"]
+        # first the public key; then, on alternative paths, the full key or the zero byte (the two
+        # alternatives are listed in block order, which depends on how the branch is written)
+        alt_ok = len(enc) == 3 and enc[0].cls == B and sorted(map(str, (enc[1].cls, enc[2].cls))) == sorted(map(str, (B, ("fixed", 1)))) and \
+            not fe_.can_reach(enc[1].site, enc[2].site) and not fe_.can_reach(enc[2].site, enc[1].site) and fe_.dominates(enc[0].site, enc[1].site) and fe_.dominates(enc[0].site, enc[2].site)
+        ctx.check(P, rule, "PartialKeypair: encode = bytes(public), then bytes(secret||public) or a single 0", alt_ok, "two length-prefixed byte strings or a zero byte",
                   "PartialKeypair::encode shapes %s" % [e.cls for e in enc])
         fe = d["encode"]
         cc = [s for s, t in fe.calls() if (t.get("callee") or "").endswith("::concat")]
